@@ -236,7 +236,7 @@ Section Render.
     let st := set_skip false st in
     let code := match rev content with 10%N :: r => rev r | _ => content end in     (* removesuffix: only the final newline *)
     let extra_text := match extra with [] => [] | _ => [sp] ++ extra end in
-    let lang_text := match lang with [] => [] | _ => lang ++ extra_text end in
+    let lang_text := match lang with [] => [] | _ => escape_backslashes lang ++ extra_text end in
     let fence := repeat fc (Nat.max flen (min_fence_length code fc)) in
     let info_sep := match lang_text with c :: _ => if N.eqb c fc then [sp] else [] | [] => [] end in
     let first := r_prefix st ++ fence ++ info_sep ++ lang_text in
